@@ -105,6 +105,9 @@ def LayerEnv.deltas (le : LayerEnv) : Scope → List Delta
 def LayerEnv.apply (le : LayerEnv) (s : Scope) (env : Env) : Env :=
   (le.deltas s).foldl (fun env d => d.apply env) env
 
+/-- `LayerEnv::apply_to_empty`: `self.apply(scope, &Env::new())` -/
+def LayerEnv.applyToEmpty (le : LayerEnv) (s : Scope) : Env := le.apply s []
+
 /-- the delta of user-inserted entries a scope designates (ignoring `all` and the implicit paths) -/
 def LayerEnv.scoped (le : LayerEnv) : Scope → Delta
   | .all => le.all
